@@ -46,6 +46,7 @@ func (c *MJAccordionComponent) Render(w io.StringWriter) error {
 	// Add CSS class if specified
 	if cssClass != "" {
 		tdTag.AddAttribute(constants.AttrClass, cssClass)
+		c.ApplyInlineStyles(tdTag, cssClass)
 	}
 
 	// Add container background color first if specified (MRML order)
@@ -298,6 +299,11 @@ func (c *MJAccordionElementComponent) Render(w io.StringWriter) error {
 		if _, err := w.WriteString(" class=\"" + cssClass + "\""); err != nil {
 			return err
 		}
+		if inlined := c.BuildInlineStyleString(cssClass); inlined != "" {
+			if _, err := w.WriteString(" style=\"" + inlined + "\""); err != nil {
+				return err
+			}
+		}
 	}
 
 	if _, err := w.WriteString(">"); err != nil {
@@ -442,6 +448,7 @@ func (c *MJAccordionElementComponent) renderTitle(w io.StringWriter, titleCompon
 	// Add CSS class if specified
 	if cssClass != "" {
 		tdTag.AddAttribute(constants.AttrClass, cssClass)
+		c.ApplyInlineStyles(tdTag, cssClass)
 	}
 
 	// Add background color first if specified (MRML order)
@@ -611,6 +618,7 @@ func (c *MJAccordionElementComponent) renderContent(w io.StringWriter, textCompo
 	// Add CSS class if specified
 	if cssClass != "" {
 		tdTag.AddAttribute(constants.AttrClass, cssClass)
+		c.ApplyInlineStyles(tdTag, cssClass)
 	}
 
 	// Add background color first if specified (MRML order)
